@@ -39,7 +39,7 @@ SMILES = [
     "C/C=C/C", "C/C=C\\C",
     # salts, hydrates, counter-ions (floating atoms)
     "[Na+].[Cl-]", "CC(=O)[O-].[Na+]", "C[NH3+].[Cl-]", "O.CCO", "[K+].[O-]C(=O)c1ccccc1", "O.O.CC(=O)O", "[Ca+2].[Cl-].[Cl-].CCO",
-    "[Na+].CCO", "[Cl-].C[N+](C)(C)C",
+    "[Na+].CCO", "[Cl-].C[N+](C)(C)C", "[NH4+].[Cl-]", "C.[Na+].O", "O.[Na+]", "[NH4+].[NH4+].[O-]S(=O)(=O)[O-]",
     # drug-like
     "CC(C)Cc1ccc(cc1)C(C)C(=O)O", "CC(=O)Oc1ccccc1C(=O)O", "CN1CCC[C@H]1c1cccnc1", "COC(=O)C(c1ccccc1)C1CCCCN1",
     "CC(=O)Nc1ccc(O)cc1", "NC(=O)c1cccnc1", "OC(=O)CCC(=O)O", "CCN(CC)CC", "CS(=O)C", "OP(=O)(O)O", "CC(C)=O", "C1COCCO1",
@@ -59,6 +59,32 @@ def load_ref(ref):
     key = vlib.canon(ref)
     if key in _cache:
         return _cache[key]
+    if "umbrella" in ref:
+        # synthetic conformer of a symmetric AX_k centre: k identical neighbours on a cone whose mean vector has a chosen
+        # length (the fingerprinter's mean-vector guard is at 0.1 A), slightly distorted so that it is in general position
+        import random as _r
+        rr = _r.Random(ref.get("seed", 1))
+        mol = Chem.MolFromSmiles(ref["umbrella"])
+        k = max(a.GetDegree() for a in mol.GetAtoms())
+        centre = [a.GetIdx() for a in mol.GetAtoms() if a.GetDegree() == k][0]
+        nbrs = [n.GetIdx() for n in mol.GetAtomWithIdx(centre).GetNeighbors()]
+        r0 = ref.get("r", 1.35)
+        cosT = min(0.99, ref["mean"] / r0)
+        sinT = math.sqrt(1 - cosT * cosT)
+        conf = Chem.Conformer(mol.GetNumAtoms())
+        conf.SetAtomPosition(centre, Point3D(0.0, 0.0, 0.0))
+        for j, a in enumerate(nbrs):
+            phi = 2 * math.pi * j / k + ref.get("twist", 0.07) * (j % 2)
+            conf.SetAtomPosition(a, Point3D(r0 * sinT * math.cos(phi) + rr.uniform(-1e-3, 1e-3),
+                                            r0 * sinT * math.sin(phi) + rr.uniform(-1e-3, 1e-3),
+                                            r0 * cosT + rr.uniform(-1e-3, 1e-3)))
+        for a in mol.GetAtoms():
+            if a.GetIdx() != centre and a.GetIdx() not in nbrs:       # further atoms (e.g. the oxygens' partners): far away
+                conf.SetAtomPosition(a.GetIdx(), Point3D(3.0 + a.GetIdx(), 2.0, 1.0))
+        mol.AddConformer(conf, assignId=True)
+        mol.SetProp("_Name", "umbrella")
+        _cache[key] = mol
+        return mol
     if "sdf" in ref:
         path = os.path.join(vlib.REPO, ref["sdf"])
         with bz2.open(path, "rb") as f:
@@ -108,6 +134,10 @@ def load_ref(ref):
 def all_refs():
     refs = [{"sdf": os.path.relpath(p, vlib.REPO)} for p in sdf_paths()]
     refs += [{"smiles": s, "nconf": 2, "seed": 7, "hs": True} for s in SMILES]
+    # symmetric centres whose mean neighbour vector straddles the 0.1 A guard of pick_y
+    for smi in ("FB(F)F", "O=S(=O)=O", "CB(C)C", "FP(F)F", "ClC(Cl)(Cl)Cl", "CN(C)C"):
+        for mean in (0.03, 0.085, 0.115, 0.16, 0.3):
+            refs.append({"umbrella": smi, "mean": mean, "seed": 3})
     return refs
 
 
@@ -186,8 +216,19 @@ def transformed(mol, conf_id, tr):
 
 def gen_transform(rng, reflect=False):
     q = [rng.gauss(0, 1) for _ in range(4)]
-    if rng.random() < 0.2:       # axis-aligned quarter turns
+    u = rng.random()
+    if u < 0.2:       # axis-aligned quarter turns
         q = rng.choice([[1, 1, 0, 0], [1, 0, 1, 0], [1, 0, 0, 1], [0, 1, 0, 0], [1, 1, 1, 1]])
+    elif u < 0.4:     # an axis onto a cube diagonal (all components of an axial vector become equal), after a spin about it
+        a = math.acos(1 / math.sqrt(3)) / 2
+        d = [math.cos(a), -math.sin(a) / math.sqrt(2), math.sin(a) / math.sqrt(2), 0.0]
+        sp = rng.uniform(0, math.pi)
+        z = [math.cos(sp), 0.0, 0.0, math.sin(sp)]
+        # quaternion product d * z  (first spin about z, then tilt z onto the diagonal)
+        q = [d[0] * z[0] - d[1] * z[1] - d[2] * z[2] - d[3] * z[3],
+             d[0] * z[1] + d[1] * z[0] + d[2] * z[3] - d[3] * z[2],
+             d[0] * z[2] - d[1] * z[3] + d[2] * z[0] + d[3] * z[1],
+             d[0] * z[3] + d[1] * z[2] - d[2] * z[1] + d[3] * z[0]]
     return {"q": q, "t": [rng.uniform(-20, 20) for _ in range(3)], "reflect": reflect}
 
 
